@@ -507,6 +507,15 @@ def run(args):
         samples += wres["samples"][:2]
         distinct |= wres["distinct"]
 
+        # ---- source positions of MAP / NoICE / listing (vlib/props/c19_lines.py, driver mode c19l)
+        from . import c19_lines
+        lres = c19_lines.run_lines(bdir, wd, common.rng_for(args.seed, "C19-lines"), {"quick": 200, "thorough": 3000}[args.tier], ok)
+        spec_fail += lres["spec_fail"]
+        corr_fail += lres["corr_fail"]
+        dist["lines"] = dict(generated=lres["agg"], **lres["dist"])
+        samples += lres["samples"][:2]
+        distinct |= lres["distinct"]
+
         # ---- golden corpus
         tests = common.corpus_tests()
         order = list(range(len(tests)))
@@ -553,19 +562,22 @@ def run(args):
         "harness: page-header stripping of the listing, file plumbing (python)",
         "correspondence: real asl listing text vs Model.Listing.makeList / makeListW (Gran, ListGran, TurnWords from Generated/ListParams.lean); MAP order vs addLineInfo (differential test)",
         "translator: Generated/ListParams.lean = globals after every CPU switch, printed by a dumper linked against the current build (ld --wrap of MakeList/asmlist_init)",
-        "self-calibrating probe: radix of the listing's %x numerals (affects the MODEL side only)"])
+        "self-calibrating probe: radix of the listing's %x numerals (affects the MODEL side only)",
+        "source positions: the generator (python) renders a nesting tree into source files and INCLUDE arguments (FSearch order re-implemented for choosing unambiguous arguments); correspondence real MAP/NoICE records vs LineInfo.run + addFile + addLineInfo"])
     res.coverage.update(
         evaluations=agg["code_groups"] + agg["map_entries"] + agg["sym_list"] + agg["sym_map"] + agg["sym_share"] + dist["corpus"]["via_map"] + dist["corpus"]["direct"]
-        + sum(dist["wide"]["generated"][k] for k in ("code_groups", "map_entries", "sym_list", "sym_map", "sym_share")),
+        + sum(dist["wide"]["generated"][k] for k in ("code_groups", "map_entries", "sym_list", "sym_map", "sym_share"))
+        + sum(dist["lines"]["generated"][k] for k in ("map_entries", "noice_entries", "atmel_records", "listing_groups")),
         distinct_nontrivial=len(distinct),
-        rule="generated programs on z80/6502/8051/8086 (data lines 1..40 bytes with continuation lines, reservations, ORG, SEGMENT, PHASE, macros, REPT, nested INCLUDE, IF, LISTING OFF, EQU, SHARED incl. forward reference) x list radix x share format; evaluation = one listed line group / MAP entry / symbol value joined with the code file; distinct by (cpu, radix, share format, #groups, #bytes, #map entries); the same on word-listed / word-addressed targets (68000 dc.b/dc.w/dc.l with PADDING, TMS320C25, TMS320C30, PIC 16C84, ATmega8, MSP430, CP-1600, 80960: data lines of 1..13 units = up to 5 listing lines, byte-dumped remainders, reservations, ORG, SEGMENT, PHASE, macros, REPT, INCLUDE, LISTING OFF)",
+        rule="generated programs on z80/6502/8051/8086 (data lines 1..40 bytes with continuation lines, reservations, ORG, SEGMENT, PHASE, macros, REPT, nested INCLUDE, IF, LISTING OFF, EQU, SHARED incl. forward reference) x list radix x share format; evaluation = one listed line group / MAP entry / symbol value joined with the code file; distinct by (cpu, radix, share format, #groups, #bytes, #map entries); the same on word-listed / word-addressed targets (68000 dc.b/dc.w/dc.l with PADDING, TMS320C25, TMS320C30, PIC 16C84, ATmega8, MSP430, CP-1600, 80960: data lines of 1..13 units = up to 5 listing lines, byte-dumped remainders, reservations, ORG, SEGMENT, PHASE, macros, REPT, INCLUDE, LISTING OFF); source positions: nesting trees (main file + include files in several directories incl. equal base names and repeated inclusion, INCLUDE inside REPT/IRP/IRPN/IRPC/WHILE/macro bodies and nested, blocks in blocks and in macros, REPT 0 / WHILE 0, code after every block, continuation lines) on z80/6502/8051/8086, evaluation = one MAP / NoICE record or listing line group joined with the code file and the structural position (file, admissible lines), distinct by (cpu, #executed statements, #files, #records, #bytes)",
         samples=samples, distribution=dict(generated=agg, **dist))
     res.assumptions = ["word-listed lines of the golden corpus are joined by the general documented reading with every address-unit size and byte order for which the code file has records (no per-target knowledge)",
                        "generated word-listed programs: address-unit size, byte order, data directives and the even-address padding rule per target are generator knowledge (manufacturer documentation / doc/pseudo-instructions.md)",
                        "negative symbol values are compared modulo 2^64 (the files print the 64-bit two's complement)",
-                       "NoICE and Atmel debug formats are not read",
+                       "NoICE and Atmel debug files: the line records of generated programs only (NoICE symbol definitions, Atmel code words are not compared)",
+                       "a statement inside a macro expansion or inside a block nested in another block may be attributed to the line of an enclosing statement (macro call, opening line of the block) of the file being read: the manual only says 'the machine code generated for the source statement in a certain line'",
                        "hook H2 (emission trace) is not present; the generator's own bookkeeping supplies segment/phase per listed line"]
-    return common.conclude(res, proof_problems, spec_fail, corr_fail, agg["programs"] + dist["wide"]["generated"]["programs"] + dist["corpus"]["tests"])
+    return common.conclude(res, proof_problems, spec_fail, corr_fail, agg["programs"] + dist["wide"]["generated"]["programs"] + dist["lines"]["generated"]["programs"] + dist["corpus"]["tests"])
 
 
 def replay(args):
@@ -575,11 +587,16 @@ def replay(args):
         bdir = common.repo_build("hooks")
         with common.Workdir("c19r") as wd:
             for n, t in d["files"].items():
+                os.makedirs(os.path.dirname(os.path.join(wd, n)), exist_ok=True)
                 open(os.path.join(wd, n), "w").write(t)
             rc, so, se = common.run_tool(bdir, "asl", d["args"], wd)
             print("asl rc =", rc, (so + se).decode(errors="replace")[-500:])
-            for f in sorted(os.listdir(wd)):
-                if f.endswith((".lst", ".map", ".shr")):
-                    print("----", f)
-                    print(open(os.path.join(wd, f), encoding="latin-1").read()[:6000])
+            for k_ in ("args_noice", "args_atmel"):
+                if k_ in d:
+                    common.run_tool(bdir, "asl", d[k_], wd)
+            for root, _dirs, fs in sorted(os.walk(wd)):
+                for f in sorted(fs):
+                    if f.endswith((".lst", ".map", ".shr", ".noi")):
+                        print("----", os.path.relpath(os.path.join(root, f), wd))
+                        print(open(os.path.join(root, f), encoding="latin-1").read()[:6000])
     return 0
